@@ -47,7 +47,18 @@ def build(T, NI):
         ctx.set("overflow", z3.Or(ctx.get("overflow"), idx == bv(NI)))
         ctx.set("ninst", z3.If(idx == bv(NI), idx, idx + bv(1)))
         return AV("ref", idx, "Instance")
+    # the instance factory is abstracted whatever it is called and wherever it lives: a helper nested in _getInstance, a
+    # (static) method of Daemon, or the class called directly
+    fdef = dom.inline[("Daemon", "_getInstance")][0]
+    for n in ast.walk(fdef):
+        if isinstance(n, ast.FunctionDef) and n is not fdef:
+            dom.functions[n.name] = create_instance
+        if isinstance(n, ast.Call) and isinstance(n.func, ast.Attribute) and isinstance(n.func.value, ast.Name) and n.func.value.id == "self":
+            nm = n.func.attr.lower().replace("_", "")
+            if "create" in nm and "instance" in nm:
+                dom.methods[("Daemon", n.func.attr)] = lambda ev, ctx, recv, args: create_instance(ev, ctx, args)
     dom.functions["createInstance"] = create_instance
+    dom.functions["clazz"] = create_instance
     daemon = AV("obj", None, "Daemon")
     for ti in range(T):
         t = m.new_thread("caller%d" % ti)
@@ -66,6 +77,8 @@ def check(T=2, K=24, timeout_s=300):
     NI = T + 1
     m, dom = build(T, NI)
     enc = Encoder(m, {"KeyError": 2, "DaemonError": 3, "TypeError": 4})
+    # the code has no loops: every node fires at most once, so K = number of nodes covers every complete schedule
+    K = max(K, sum(len(t.nodes) for t in m.threads) + 2)
     s = z3.SolverFor("QF_BV")
     s.set("timeout", int(timeout_s * 1000))
     states, tids, nds = enc.unroll(K, None, None, s)
